@@ -14,7 +14,7 @@ import c05
 
 META = {
     "level": "other",
-    "technique": "static analysis: compile-time-evaluated constants compared with their definitions; term shape of table accessors; both cfg arms type-checked and analysed (rustc_private driver, two target-feature configurations)",
+    "technique": "static analysis: compile-time-evaluated constants compared with their definitions; term shape of table accessors; mask-width dataflow (complement in a narrower type); both cfg arms type-checked and analysed (rustc_private driver, two target-feature configurations)",
     "explanation": "The driver evaluates every const item of the crate (rustc const-eval, not execution of library code). The four tables are "
                    "compared entry by entry with definitions computed independently (65+65+65 entries and the 1024 entries of _SELECT_IN_BYTE "
                    "that the contract of bits::select can reach). The accessors are shown to index exactly these tables by their parameter, "
